@@ -44,6 +44,10 @@ SpanOk(L, c, x, env) ==
      /\ sp.parent = (CASE x.parent = "root" -> 0 [] x.parent = "given" -> env.psp [] OTHER -> env.outer)
      /\ FieldSet(sp.fields) = ExpFieldSet(x.fields)
      /\ Len(sp.fields) = Cardinality(FieldSet(sp.fields))                    \* each field once
+     \* arguments of primitive types arrive as typed values (their visitor method), everything else through Debug
+     /\ \A i \in DOMAIN sp.fields : \A j \in DOMAIN x.fields :
+          (sp.fields[i].name = x.fields[j].name /\ "m" \in DOMAIN x.fields[j] /\ "m" \in DOMAIN sp.fields[i])
+             => (x.fields[j].m = "any" \/ sp.fields[i].m = x.fields[j].m)
      /\ LET fl == {i \in DOMAIN L : L[i].k = "follows" /\ L[i].id = sp.id} IN
           IF x.follows THEN Cardinality(fl) = 1 /\ \A i \in fl : L[i].from = env.psp ELSE fl = {}
 
